@@ -28,6 +28,7 @@ import (
 	vdebug "runtime/debug"
 	vstrconv "strconv"
 	vsyscall "syscall"
+	vtime "time"
 	vunsafe "unsafe"
 )
 
@@ -133,6 +134,11 @@ func vReach(label string)             { vfmt.Println("VERIF-REACH " + label) }
 func vObserve(label string, v uint64) { vfmt.Printf("VERIF-OBS %%s=%%d\n", label, v) }
 
 func vInsertionSort(n int, less func(i, j int) bool, swap func(i, j int)) {}
+
+var vStart = vtime.Now()
+
+// real seconds since the harness started (timers run in real time natively)
+func vElapsedSec() uint64 { return uint64(vtime.Since(vStart) / vtime.Second) }
 
 func vRunHarness(fns map[string]func()) {
 	vLoadVector()
